@@ -37,7 +37,7 @@ CfgsGen ==
   \cup {Mk(fa, "keyed", 0, f, <<0>>, B(TRUE, 1, 1, 1, 0, 0, 1, FALSE, FALSE, FALSE, 2, 0, 0)) : fa \in Fams, f \in Feats}
 
 CfgsLiveQ == {Mk(fa, "keyed", 0, f, <<>>, B(FALSE, 1, 1, 1, 0, 0, 0, FALSE, FALSE, FALSE, 2, 0, 0)) : fa \in Fams, f \in Feats}
-CfgsLive == {Mk(fa, "keyed", 0, f, <<>>, B(FALSE, 1, 1, 1, 1, 1, 1, FALSE, FALSE, FALSE, 2, 1, 0)) : fa \in Fams, f \in Feats}
+CfgsLive == {Mk(fa, "keyed", 0, f, <<>>, B(FALSE, 1, 1, 1, 0, 1, 1, FALSE, FALSE, FALSE, 2, 0, 0)) : fa \in Fams, f \in Feats}
 
 ExportOK == ExportEnd => PrintT("VEC " \o ToJson([cfg |-> cfg, hist |-> hist']))
 =============================================================================
